@@ -18,6 +18,8 @@ THEOREMS = [
     "C17.loopF_sound",
     "C17.runF_sound",
     "C17.legacy_counterexample",
+    "C17.stale_justifications_do_not_prove",
+    "C17.reverse_index_complete",
 ]
 N = {"quick": 3000, "thorough": 40000}
 EXHAUSTIVE = {"quick": False, "thorough": False}
@@ -26,7 +28,19 @@ RULE = ("cases = corpus + exhaustive families of well-formed histories up to ren
         "4 ops/<=5 handles/<=1 premise (14885), 4 ops/<=3 handles/<=2 premises (49648), 6 ops/<=2 handles/<=1 premise (61502), and "
         "all 231528 well-formed histories of 6 ops from a 9-operation menu over 5 handles (chain, diamond, two justifications, "
         "re-proof, three invalidations; every insertion order); thorough = 4 ops/<=5 handles/<=2 premises (625728), "
-        "5 ops/<=4 handles/<=1 premise (257958), 6 ops/<=2 handles/<=2 premises (222174) and the menu family; "
+        "5 ops/<=4 handles/<=1 premise (257958), 6 ops/<=2 handles/<=2 premises (222174), the menu family at 6 and at 7 ops (1584538); "
+        "both tiers: all well-formed words of 7 ops (47819; thorough 8 ops: 249131) over the one-node menu D<-[P], D<-[Q], D<-[R], xD, xP, xQ, xR "
+        "up to renaming of the premises; the constructive re-proof family (a node with k = 2..4 justifications — single premises or "
+        "overlapping premise sets — each premise invalidated before the node is invalidated directly / while it is invalid / after "
+        "it has been re-proved, in every combination; direct invalidation once, twice or not at all; re-proof through a fresh "
+        "handle, without premises, or once more through a live premise; the final invalidations in EVERY order; premises optionally "
+        "derived themselves (chains, inserted before or after the node's justifications, the root is invalidated); optional "
+        "dependent: quick 14448, thorough 50400 histories, every fourth with foreign premise_keys); the premise_keys family "
+        "(insert_proof's `premise_keys` argument — documented as human-readable tracing — drawn independently of the premises: "
+        "absent, shorter at the end / at the front, only the first, longer, permuted, one key repeated, foreign, random; every "
+        "mode x 1..3 premises x every invalidated premise position x dependent before/after x second justification, plus the "
+        "8638 three-op histories once more with a random key mode per insertion; half of the random histories too; the model "
+        "and the specification ignore the keys); "
         "+ N random well-formed histories of 1..9 (thorough 1..12) ops over 3..7 handles with 0..3 premises (duplicates, "
         "self-premises, shared keys, re-insertion under another key, dependents-first and premises-first styles). Handle ids are "
         "a random injection per case (varies HashSet iteration order). Each case is run on ProofGraph (real code) and on the Lean "
